@@ -39,10 +39,12 @@ N_DAG5 = 29281
 N_DAG5BLOCKS = (N_DAG5 + DAG5_BLOCK - 1) // DAG5_BLOCK       # 1831
 
 LAYOUT = {
-    "quick": [("dagblock", N_DAGBLOCKS), ("pdagblock", N_PDAGBLOCKS), ("dag5s", 100), ("rand", 2000), ("rpdag", 600)],
+    "quick": [("dagblock", N_DAGBLOCKS), ("pdagblock", N_PDAGBLOCKS), ("dag5s", 100), ("rand", 2000), ("rpdag", 600),
+              ("seq", 1500), ("pseq", 500)],
     "thorough": [("dagblock", N_DAGBLOCKS), ("pdagblock", N_PDAGBLOCKS),
                  ("dag5", max(8, int(N_DAG5BLOCKS * _SCALE)) if _SCALE < 1 else N_DAG5BLOCKS),
-                 ("rand", max(20, int(1600 * _SCALE))), ("rpdag", max(20, int(800 * _SCALE)))],
+                 ("rand", max(20, int(1600 * _SCALE))), ("rpdag", max(20, int(800 * _SCALE))),
+                 ("seq", max(20, int(2500 * _SCALE))), ("pseq", max(20, int(800 * _SCALE)))],
 }
 
 
@@ -51,7 +53,7 @@ def _ncases(tier):
 
 
 PLAN = {
-    "quick": {"cases": _ncases("quick"), "hashseeds": 3, "shards": 5, "timeout": 600, "min_nontrivial": 2000},
+    "quick": {"cases": _ncases("quick"), "hashseeds": 3, "shards": 5, "timeout": 600, "min_nontrivial": 3200},
     "thorough": {"cases": _ncases("thorough"), "hashseeds": 8, "shards": 2, "timeout": 5000,
                  "min_nontrivial": int(_ncases("thorough") * 0.8)},
 }
@@ -64,6 +66,11 @@ RULE = ("(a) EXHAUSTIVE: every labelled DAG on 1-4 nodes (572, each under 2-3 la
         "(each pair none/->/<-/--), several labelings / edge orders each; (d) random PDAGs on 5-7 nodes (CPDAGs, "
         "CPDAGs with extra oriented edges, DAGs with edges undirected, arbitrary mixed graphs).  non-trivial: case "
         "contains a ground-truth DAG with >= 3 nodes and >= 1 edge, or an extendable PDAG with >= 1 undirected edge; "
+        "(e) call sequences: ONE PC object answering 5-9 estimate / build_skeleton / skeleton_to_pdag-twice calls for "
+        "two different ground-truth DAGs on 1-6 variables (variants, oracle kinds, return types, max_cond_vars 0 / 1 / "
+        "exact max degree / +1 / n / 1000 / numpy int / integral float, significance levels 0 .. 1e8 / None), returned "
+        "objects edited between calls and re-judged afterwards; ONE PDAG object: to_dag twice, copy + edit + to_dag "
+        "again; node names 0, '', 2.5, 1234567, tuples, mixed types; 0-3 node and edgeless graphs; duplicate edges; "
         "distinct by digest of the whole spec; every case runs under 3 (thorough 8) PYTHONHASHSEEDs")
 ASSUMPTIONS = ["path-based d-separation from the definition is the CI truth",
                "class enumeration (n<=5) defines the CPDAG; Meek R1-R3 closure is trusted for n>=5 only after "
@@ -255,6 +262,12 @@ def gen_case(seed, idx, tier):
         if style != "ints" and n <= (5 if tier == "quick" else 6):
             modes.append("match")
         return {"kind": kind, "items": [_dag_item(rng, n, e, style, modes, tier)]}
+    if kind == "seq":
+        from rv.props import C12_seq
+        return C12_seq.gen_seq(rng, tier)
+    if kind == "pseq":
+        from rv.props import C12_seq
+        return C12_seq.gen_pseq(rng, tier)
     # rpdag: random partially directed graphs on 5..7 nodes
     items = []
     for _ in range(4):
@@ -1074,6 +1087,12 @@ def run_case(spec, ctx):
                 nt = True
         ctx.nontrivial = nt
         ctx.xcell["skeletons"] = spec_digest(digests)
+    elif kind == "seq":
+        from rv.props import C12_seq
+        C12_seq.run_seq(spec, ctx)
+    elif kind == "pseq":
+        from rv.props import C12_seq
+        C12_seq.run_pseq(spec, ctx)
     else:
         nt = False
         for it in spec["items"]:
